@@ -8,7 +8,7 @@ use crate::view::*;
 use serde_json::{json, Value};
 
 pub const POOL: &[&str] = &["alice", "bobby", "carol", "dave", "exec1", "exec2", "appr1", "appr2", "feea", "feeb"];
-pub const RATES: &[&str] = &["0", "0.001", "0.01", "0.015", "0.05", "0.1", "0.25", "0.5", "0.33", "1", "0.0025", "0.125", "0.075", "0.2", "0.9", "0.999", "0.0001", "0.3333"];
+pub const RATES: &[&str] = &["0", "0.001", "0.01", "0.015", "0.05", "0.1", "0.25", "0.5", "0.33", "1", "0.0025", "0.125", "0.075", "0.2", "0.9", "0.999", "0.0001", "0.3333", "1.5"];
 
 #[derive(Clone, Debug)]
 pub struct Regime {
@@ -96,7 +96,7 @@ pub fn gen_cfg(r: &mut Rng, rg: &Regime) -> GenCfg {
     let pool: Vec<String> = POOL[..rg.pool.min(POOL.len())].iter().map(|s| s.to_string()).collect();
     let mut markers = vec![];
     for d in convs.iter().filter(|c| c.as_str() != "base").chain(quotes.iter()).chain(std::iter::once(&"base".to_string())) {
-        markers.push((d.clone(), *r.pick(&[MarkerKind::NoMarker, MarkerKind::Coin, MarkerKind::Restricted])));
+        markers.push((d.clone(), *r.pick(&[MarkerKind::NoMarker, MarkerKind::Coin, MarkerKind::Restricted, MarkerKind::NoMarker, MarkerKind::Coin, MarkerKind::Restricted, MarkerKind::NoMarker, MarkerKind::Coin, MarkerKind::Restricted, MarkerKind::EmptyResponse])));
     }
     let mut approvers: Vec<String> = (0..1 + { let n = if r.chance(20) { 4 } else { 2 }; r.below(n) }).map(|_| r.pick(&pool).clone()).collect();
     approvers.dedup();
@@ -529,6 +529,7 @@ pub fn mutate(r: &mut Rng, w: &World, op: &mut Op) {
             5 => { bump(body, "size", 1); for c in funds.iter_mut() { c.1 += 1; } }
             6 => { body["base"] = json!("nope"); for c in funds.iter_mut() { c.0 = "nope".into(); } }
             7 => body["quote"] = json!(if r.chance(50) { "nope" } else { "" }),
+            13 if r.chance(50) => { body["base"] = json!(""); }
             8 | 9 => { let id = body["id"].as_str().unwrap_or("").to_string(); body["id"] = json!(bad_id(r, &id, &existing)); }
             10 => if let Some(c) = funds.first_mut() { c.0 = "q0".into() },
             11 => *sender = "noattr".into(),
@@ -563,7 +564,8 @@ pub fn mutate(r: &mut Rng, w: &World, op: &mut Op) {
                 }
             }
             8 | 9 => { let id = body["id"].as_str().unwrap_or("").to_string(); body["id"] = json!(bad_id(r, &id, &existing)); }
-            10 => body["base"] = json!(if r.chance(50) { "conv0" } else { "nope" }),
+            10 => body["base"] = json!(match r.below(3) { 0 => "conv0", 1 => "nope", _ => "" }),
+            13 if r.chance(50) => { if r.chance(50) { body["quote"] = json!(""); } else { body["quote_size"] = json!("0"); } }
             11 => { body["quote"] = json!("nope"); for c in funds.iter_mut() { c.0 = "nope".into(); } if !body["fee"].is_null() { body["fee"]["denom"] = json!("nope"); } }
             12 => *sender = "noattr".into(),
             _ => { let b = r.pick(HUGE_INTS).to_string(); body["size"] = json!(b); }
@@ -573,7 +575,7 @@ pub fn mutate(r: &mut Rng, w: &World, op: &mut Op) {
             1 => { bump(body, "size", -1); for c in funds.iter_mut() { c.1 = c.1.saturating_sub(1); } }
             2 => match funds.first_mut() { Some(c) => c.1 += 1, None => funds.push(("base".into(), 1)) },
             3 => if let Some(c) = funds.first_mut() { c.1 = c.1.saturating_sub(1) },
-            4 => body["base"] = json!(if cfg.convs.is_empty() { "nope".to_string() } else { cfg.convs[0].clone() }),
+            4 => body["base"] = json!(if r.chance(25) { String::new() } else if cfg.convs.is_empty() { "nope".to_string() } else { cfg.convs[0].clone() }),
             5 => *sender = r.pick(POOL).to_string(),
             6 => { let id = body["id"].as_str().unwrap_or("").to_string(); body["id"] = json!(bad_id(r, &id, &existing)); }
             _ => funds.clear(),
